@@ -1,8 +1,40 @@
 #!/usr/bin/env python3
-import json, sys, glob
+"""Validates MANIFEST.json and every evidence file against the schemas and against each other: an evidence file must
+carry the level its check claims in MANIFEST.json, report no violation, and (proof level) discharged == obligations.
+Run before every commit of /verif: evidence written while /repo carried a deliberately broken change must not be committed."""
+import json, sys, glob, os
 import jsonschema
-jsonschema.validate(json.load(open('/verif/MANIFEST.json')), json.load(open('/root/.vp/MANIFEST.schema.json')))
+man = json.load(open('/verif/MANIFEST.json'))
+jsonschema.validate(man, json.load(open('/root/.vp/MANIFEST.schema.json')))
 es = json.load(open('/root/.vp/EVIDENCE.schema.json'))
+bad = []
+for c in man['checks']:
+    f = c['evidence_file']
+    if not os.path.exists(f):
+        bad.append("%s: no evidence file" % c['property_id']); continue
+    e = json.load(open(f))
+    jsonschema.validate(e, es)
+    cov = e['coverage']
+    if e['property_id'] != c['property_id']:
+        bad.append("%s: evidence is for %s" % (c['property_id'], e['property_id']))
+    if e['level'] != c['level_claimed']['category']:
+        bad.append("%s: evidence level %s, MANIFEST claims %s" % (c['property_id'], e['level'], c['level_claimed']['category']))
+    if e.get('violations'):
+        bad.append("%s: evidence records %d violation(s)" % (c['property_id'], e['violations']))
+    if cov.get('undecided_units'):
+        bad.append("%s: undecided units %s" % (c['property_id'], cov['undecided_units']))
+    if cov.get('discharged') != cov.get('obligations') or not cov.get('obligations'):
+        bad.append("%s: discharged %s != obligations %s" % (c['property_id'], cov.get('discharged'), cov.get('obligations')))
+claimed = {c['property_id'] for c in man['checks']}
 for f in sorted(glob.glob('/verif/evidence/*.json')):
-    jsonschema.validate(json.load(open(f)), es)
-print('schemas ok', len(glob.glob('/verif/evidence/*.json')), 'evidence files')
+    if os.path.basename(f)[:-5] not in claimed:
+        bad.append("%s: evidence file for a property that is not claimed" % f)
+props = [json.loads(l)['id'] for l in open('/verif/properties.jsonl')]
+na = {n['property_id'] for n in man.get('not_applicable', [])}
+for p in props:
+    if (p in claimed) == (p in na):
+        bad.append("%s: must be either claimed or listed under not_applicable" % p)
+for b in bad:
+    print("INVALID " + b)
+print('schemas ok, %d checks, %d evidence files, %d inconsistencies' % (len(man['checks']), len(glob.glob('/verif/evidence/*.json')), len(bad)))
+sys.exit(1 if bad else 0)
